@@ -921,9 +921,10 @@ def run(ctx: Ctx, repo: Repo, tier: str) -> None:
         "class-level operations are not reported",
         "the configured CallTraceLogger is outside the analysed call graph",
     )
-    rule_effects(ctx, repo)
-    rule_containment(ctx, repo)
-    rule_restore_flush(ctx, repo)
-    rule_exit_contained(ctx, repo)
-    rule_serializer_contained(ctx, repo)
-    rule_program_visible_state(ctx, repo)
+    ctx.attempt(rule_effects, ctx, repo)
+    ctx.attempt(rule_containment, ctx, repo)
+    ctx.attempt(rule_restore_flush, ctx, repo)
+    ctx.attempt(rule_exit_contained, ctx, repo)
+    ctx.attempt(rule_serializer_contained, ctx, repo)
+    ctx.attempt(rule_program_visible_state, ctx, repo)
+    ctx.settle()
